@@ -17,6 +17,7 @@ import GormModel.Gen.StmtCacheSessFacts
 import GormModel.Model.StmtCacheKinds
 import GormModel.Lemmas.StmtCacheKinds
 import GormModel.Gen.StmtCacheKindFacts
+import GormModel.Gen.StmtCacheTextFacts
 namespace Gorm
 open SC
 
@@ -702,5 +703,225 @@ example :
     (runK SCK.good false kindsDemo).log.all (·.res == .ok) = true ∧
     (runK SCK.good false kindsDemo).entries.map (fun e => (e.text, e.on, e.txFlag)) = [(1, .tx 1, true), (0, .root, false)] := by
   decide
+
+/-! ## Round 5 — the cache treats every statement TEXT alike
+
+The LTS is parametric in the text (`Text := Nat`, only ever a key of `maps m`).  That is a claim about the source, so it
+is (1) decided on regenerated facts about every occurrence of the text in prepare_stmt.go and (2) proved of the model:
+the next section of an `Exec/Query` depends on its text only through what the map holds under it, and it never touches
+the cache slot of another text.  A text-dependent admission rule (length bound, statement-kind prefix, normalised key)
+breaks (1) on the tree and would break (2) in a model that transcribed it. -/
+
+/-- WHAT prepare_stmt.go DOES WITH A STATEMENT TEXT (regenerated `Gen/StmtCacheTextFacts`, extract/gen_c14t.go): in the
+    seven functions that take one (`prepare`, and Exec/Query/QueryRow of the cache and of its transaction) every
+    occurrence of the text is the index of `….Stmts[text]`, the key of `delete(….Stmts, text)`, or handed on unchanged to
+    `prepare` / `ConnPool.PrepareContext`; no `if` / `switch` / `for` condition mentions the text except as that map
+    index.  There is no `len(query)`, no strings function, no comparison, no re-assignment: texts of any length, case,
+    spacing — the empty one included — take the same path.  Non-vacuity: `prepare` looks the text up twice (read lock,
+    double check), publishes it once and prepares it once. -/
+theorem C14_text_uniform_sites :
+    Gen.textFuncs = ["PreparedStmtDB.prepare", "PreparedStmtDB.ExecContext", "PreparedStmtDB.QueryContext",
+      "PreparedStmtDB.QueryRowContext", "PreparedStmtTX.ExecContext", "PreparedStmtTX.QueryContext",
+      "PreparedStmtTX.QueryRowContext"] ∧
+    (Gen.textUses.all fun u =>
+      u.kind == "key" || u.kind == "delete" ||
+      (u.kind == "pass" && (if u.fn == "PreparedStmtDB.prepare" then u.callee == "PrepareContext" else u.callee == "prepare"))) = true ∧
+    (Gen.textConds.all fun c => c.mention == "none" || c.mention == "key") = true ∧
+    (Gen.textUses.filter fun u => u.fn == "PreparedStmtDB.prepare").map (·.kind) =
+      ["key", "key", "key", "pass", "key", "delete"] ∧
+    (Gen.textFuncs.all fun f => f == "PreparedStmtDB.prepare" ||
+      (Gen.textUses.filter fun u => u.fn == f && u.kind == "pass").length == 1) = true := by
+  decide
+
+/-- what a goroutine's section decides and produces, with the text abstracted away: its next program counter, the
+    allocation counters (entries published, statements prepared, maps) and every driver statement's state -/
+def ctl (s : St) (t : Nat) : Pc × Nat × Nat × Nat × (Nat → Handle) := ((s.threads t).pc, s.nE, s.nH, s.nM, s.handles)
+
+/-- everything `ctl` looks at -/
+def core (s : St) : (Nat → Thread) × Nat × Nat × Nat × (Nat → Handle) := (s.threads, s.nE, s.nH, s.nM, s.handles)
+
+theorem core_delAt (s : St) (v : Nat) (q : Text) (own : Nat) : core (delAt s v q own) = core s := by
+  unfold delAt
+  split
+  · rfl
+  · split <;> rfl
+
+theorem core_delFail (s : St) (v : Nat) (q : Text) (e : Nat) : core (delFail s v q e) = core s := by
+  unfold delFail
+  split
+  · rfl
+  · exact core_delAt s v q e
+
+theorem core_delEvict (s : St) (v : Nat) (q : Text) (e h : Nat) : core (delEvict s v q e h) = core s := by
+  unfold delEvict
+  split
+  · rfl
+  · exact core_delAt s v q e
+
+theorem ctl_setPc_congr (s1 s2 : St) (t : Nat) (pc : Pc) (h : core s1 = core s2) :
+    ctl (setPc s1 t pc) t = ctl (setPc s2 t pc) t := by
+  cases s1; cases s2
+  simp only [core, Prod.mk.injEq] at h
+  obtain ⟨rfl, rfl, rfl, rfl, rfl⟩ := h
+  rfl
+
+theorem ctl_finish_congr (s1 s2 : St) (t : Nat) (r : Res) (h : core s1 = core s2) :
+    ctl (finish s1 t r) t = ctl (finish s2 t r) t := by
+  cases s1; cases s2
+  simp only [core, Prod.mk.injEq] at h
+  obtain ⟨rfl, rfl, rfl, rfl, rfl⟩ := h
+  simp only [finish, setPc, ctl]
+  split <;> rfl
+
+/-- NO BRANCH ON THE TEXT.  In any state, the next section of an `Exec/Query` for text `q` and for text `q'` decide and
+    produce the same (same next program counter — hit, wait, publish-and-prepare, `ErrInvalidDB`, eviction —, same
+    allocations, same statements closed) whenever the maps hold the same entry under both: the text is looked at only
+    through the map lookup.  In particular an uncached long text and an uncached short text are both published and
+    prepared once, and both answer `ErrInvalidDB` on a nil map. -/
+theorem C14_text_uniform (s : St) (t : Nat) (a : Ans) (v : Nat) (q q' : Text) (tx : Bool) (pc : Pc)
+    (h : ∀ m, s.maps m q = s.maps m q') :
+    (stepUse s t a v q tx pc).map (ctl · t) = (stepUse s t a v q' tx pc).map (ctl · t) := by
+  cases pc with
+  | init =>
+    simp only [stepUse]
+    cases hv : s.views v with
+    | none => rfl
+    | some m =>
+      simp only [← h m]
+  | missed =>
+    simp only [stepUse]
+    cases hv : s.views v with
+    | none => rfl
+    | some m =>
+      simp only [← h m]
+      cases hq : s.maps m q with
+      | none => simp [publish, setPc, setEnt, ctl]
+      | some e =>
+        by_cases hu : usable s e tx = true
+        · simp [hu]
+        · simp [hu, publish, setPc, setEnt, ctl]
+  | failing e =>
+    simp only [stepUse, Option.map_some, Option.some.injEq]
+    exact ctl_setPc_congr _ _ t _ ((core_delFail s v q e).trans (core_delFail s v q' e).symm)
+  | evicting e hh =>
+    simp only [stepUse, Option.map_some, Option.some.injEq]
+    exact ctl_finish_congr _ _ t _ ((core_delEvict _ v q e hh).trans (core_delEvict _ v q' e hh).symm)
+  | _ => rfl
+
+/-- TEXTS DO NOT INTERFERE.  A section of an `Exec/Query` for text `q` leaves the cache slot of every OTHER text — in
+    every map object — exactly as it was: publishing, the failed-prepare delete and the ErrBadConn eviction all act on
+    the key `q` alone.  Two texts that differ only in letter case or white space are two keys with two entries. -/
+theorem C14_text_local (s s' : St) (t : Nat) (a : Ans) (v : Nat) (q : Text) (tx : Bool) (pc : Pc)
+    (hs : stepUse s t a v q tx pc = some s') (m : Nat) (q' : Text) (hne : q' ≠ q) :
+    s'.maps m q' = s.maps m q' := by
+  have hdel : ∀ (s0 : St) (own : Nat), (delAt s0 v q own).maps m q' = s0.maps m q' := by
+    intro s0 own
+    unfold delAt
+    split
+    · rfl
+    · next m0 _ =>
+      split
+      · rfl
+      · dsimp only
+        by_cases hm : m = m0
+        · subst hm; simp [upd_apply, hne]
+        · simp [upd_apply, hm]
+  have hfin : ∀ (s0 : St) (r : Res), (finish s0 t r).maps = s0.maps := by
+    intro s0 r
+    unfold finish
+    cases (s0.threads t).op with
+    | use _ _ b => cases b <;> rfl
+    | _ => rfl
+  have hpub : ∀ m0, (publish s t v m0 q tx).maps m q' = s.maps m q' := by
+    intro m0
+    show upd s.maps m0 (upd (s.maps m0) q (some s.nE)) m q' = s.maps m q'
+    by_cases hm : m = m0
+    · subst hm; simp [upd_apply, hne]
+    · simp [upd_apply, hm]
+  cases pc with
+  | init =>
+    simp only [stepUse] at hs
+    cases hv : s.views v with
+    | none => simp [hv] at hs; subst hs; rfl
+    | some m0 =>
+      simp only [hv] at hs
+      cases hq : s.maps m0 q with
+      | none => simp [hq] at hs; subst hs; rfl
+      | some e => simp only [hq] at hs; split at hs <;> (simp at hs; subst hs; rfl)
+  | missed =>
+    simp only [stepUse] at hs
+    cases hv : s.views v with
+    | none => simp [hv] at hs; subst hs; rw [hfin]
+    | some m0 =>
+      simp only [hv] at hs
+      cases hq : s.maps m0 q with
+      | none => simp [hq] at hs; subst hs; exact hpub m0
+      | some e =>
+        simp only [hq] at hs
+        split at hs
+        · simp at hs; subst hs; rfl
+        · simp at hs; subst hs; exact hpub m0
+  | waiting e =>
+    simp only [stepUse] at hs
+    split at hs
+    · split at hs
+      · simp at hs; subst hs; rw [hfin]
+      · split at hs <;> (simp at hs; subst hs; first | rfl | rw [hfin])
+    · simp at hs
+  | preparing e => simp only [stepUse] at hs; cases a <;> (simp at hs; subst hs; rfl)
+  | storing e h => simp [stepUse] at hs; subst hs; rfl
+  | failing e =>
+    simp only [stepUse, delFail] at hs
+    split at hs <;> (simp at hs; subst hs)
+    · rfl
+    · exact hdel s e
+  | closingOk e h => simp [stepUse] at hs; subst hs; rfl
+  | closingErr e => simp [stepUse] at hs; subst hs; rw [hfin]
+  | ready e h => simp only [stepUse] at hs; split at hs <;> (simp at hs; subst hs; first | rfl | rw [hfin])
+  | «using» e h => simp only [stepUse] at hs; cases a <;> (simp at hs; subst hs; first | rfl | rw [hfin])
+  | evicting e h =>
+    simp only [stepUse, delEvict] at hs
+    split at hs <;> (simp at hs; subst hs; rw [hfin])
+    exact hdel _ e
+  | fin r => simp [stepUse] at hs
+
+/-- non-vacuity: a large text index (a "long" text) and text 0 through the same cache — each published and prepared
+    once (two requests for the long one), both closed after `Close`, both `invalidDB` afterwards -/
+example :
+    (let big := 1025
+     let s := run (init [.use 0 big false, .use 0 0 false, .use 0 big false, .close 0, .use 0 big false, .use 0 0 false])
+       (stepsOf 0 7 ++ stepsOf 1 7 ++ stepsOf 2 4 ++ stepsOf 3 1 ++ [.closeE 0, .closeE 1] ++ stepsOf 4 2 ++ stepsOf 5 2)
+     prepCount s 0 big = 1 ∧ prepCount s 0 0 = 1 ∧ s.nH = 2 ∧ (s.handles 0).closed = true ∧ (s.handles 1).closed = true ∧
+     result s 4 = some .invalidDB ∧ result s 5 = some .invalidDB ∧ result s 2 = some .rows) := by
+  decide
+
+/-! ## Finding F14f — `Row()` drops the error of `prepare` (found by the texts suite: every text once more after Close) -/
+
+/-- COUNTEREXAMPLE (F14f).  With the error path `return &sql.Row{}`, a `Row()` through a CLOSED cache (prepare answers
+    ErrInvalidDB) or for a text whose PrepareContext fails hands the caller the empty row — `Scan` panics with a nil
+    pointer dereference instead of returning "a clean error once the cache is closed" / the preparation error that
+    non-prepared mode returns. -/
+theorem C14_row_error_dropped_counterexample :
+    queryRow true (some .invalidDB) = .emptyRow ∧ queryRow true (some .prepErr) = .emptyRow := by
+  decide
+
+/-- PARTIAL.  Outside F14f's pattern — the preparation succeeded — `Row()` is transparent whatever the error path does;
+    and an error path that wraps the error answers every failed preparation with that error. -/
+theorem C14_row_partial (d : Bool) :
+    queryRow d none = .row ∧ ∀ r, queryRow false (some r) = .errRow r := by
+  cases d <;> exact ⟨rfl, fun _ => rfl⟩
+
+/-- WHAT HOLDS FOR THE CURRENT SOURCE TREE (regenerated `Gen.rowErrPaths`): the cache and its transaction each have one
+    error path in QueryRowContext; either one of them returns the empty row literal and F14f's witnesses apply, or none
+    does and every failed preparation reaches the caller's Scan. -/
+theorem C14_row_current_tree :
+    Gen.rowErrPaths.map (·.1) = ["PreparedStmtDB.QueryRowContext", "PreparedStmtTX.QueryRowContext"] ∧
+    ((rowDropsErr = true ∧ queryRow rowDropsErr (some .invalidDB) = .emptyRow ∧ queryRow rowDropsErr (some .prepErr) = .emptyRow) ∨
+     (rowDropsErr = false ∧ ∀ r, queryRow rowDropsErr (some r) = .errRow r)) := by
+  refine ⟨by decide, ?_⟩
+  by_cases h : rowDropsErr = true
+  · exact Or.inl ⟨h, by rw [h]; decide⟩
+  · have h' : rowDropsErr = false := by simpa using h
+    exact Or.inr ⟨h', by rw [h']; intro r; rfl⟩
 
 end Gorm
